@@ -1724,7 +1724,8 @@ impl KotoVm {
                         self.set_register(result, display_context.result().into());
                         Ok(())
                     }
-                    Err(_) => runtime_error!("failed to get display value"),
+                    // The error is passed on as it is so that it keeps its kind and thrown value
+                    Err(error) => Err(error),
                 }
             }
         }
@@ -1745,7 +1746,8 @@ impl KotoVm {
                         self.set_register(result, display_context.result().into());
                         Ok(())
                     }
-                    Err(_) => runtime_error!("failed to get display value"),
+                    // The error is passed on as it is so that it keeps its kind and thrown value
+                    Err(error) => Err(error),
                 }
             }
         }
